@@ -145,10 +145,10 @@ def ConfigWellFormed (cat : Catalogue) : Option DefaultRule → Prop
   | some d => DefaultWellFormed cat d
 
 /-- a rule that must be accepted; everything else must be rejected -/
-structure WellFormed (cat : Catalogue) (proxy : Bool) (d : Option DefaultRule) (r : RuleDef) : Prop
+structure WellFormed (cat : Catalogue) (proxy validated : Bool) (d : Option DefaultRule) (r : RuleDef) : Prop
     extends ListsOk cat r.execute r.onError where
-  /-- `execute` is mandatory -/
-  nonempty : r.execute ≠ []
+  /-- `execute` is mandatory in validated rule set documents -/
+  nonempty : validated = true → r.execute ≠ []
   /-- proxy mode needs `forward_to` -/
   forward : proxy = true → r.forwardTo = true
   /-- the rule ends up with an authenticator, its own or the default rule's -/
@@ -166,8 +166,8 @@ def configOk (cat : Catalogue) : Option DefaultRule → Bool
   | some d => listsOk cat d.execute d.onError && decide d.execute.Nodup && decide d.onError.Nodup &&
       !(own .authentication d.execute d.onError).isEmpty
 
-def ruleOk (cat : Catalogue) (proxy : Bool) (d : Option DefaultRule) (r : RuleDef) : Bool :=
-  listsOk cat r.execute r.onError && !r.execute.isEmpty && (!proxy || r.forwardTo) &&
+def ruleOk (cat : Catalogue) (proxy validated : Bool) (d : Option DefaultRule) (r : RuleDef) : Bool :=
+  listsOk cat r.execute r.onError && (!validated || !r.execute.isEmpty) && (!proxy || r.forwardTo) &&
     !(inherit (own .authentication r.execute r.onError) (ownDefault .authentication d)).isEmpty
 
 /-- the pipelines the property prescribes -/
@@ -190,10 +190,17 @@ def factory (proxy : Bool) (d : Option DefaultRule) : Factory :=
   ⟨proxy, d.map (fun d => pipelines none d.execute d.onError), (d.map (·.backtracking)).getD false⟩
 
 /-- reference loader: accepted exactly when well-formed, and then with the prescribed effective rule -/
-def load (cat : Catalogue) (proxy : Bool) (d : Option DefaultRule) (r : RuleDef) : Option (Option (Factory × Effective)) :=
+def load (cat : Catalogue) (proxy validated : Bool) (d : Option DefaultRule) (r : RuleDef) :
+    Option (Option (Factory × Effective)) :=
   if !configOk cat d then none
-  else if !ruleOk cat proxy d r then some none
+  else if !ruleOk cat proxy validated d r then some none
   else some (some (factory proxy d, effective d r))
+
+/-- reference loader for a history: every rule is judged by itself -/
+def loadHistory (cat : Catalogue) (proxy validated : Bool) (d : Option DefaultRule) (rs : List RuleDef) :
+    Option (List (Option Effective)) :=
+  if !configOk cat d then none
+  else some (rs.map fun r => if ruleOk cat proxy validated d r then some (effective d r) else none)
 
 end Spec
 end Heimdall.Factory
